@@ -153,6 +153,11 @@ func (d *Decimal) setString(c *Context, s string) (Condition, error) {
 		exps = append(exps, -exp)
 		s = s[:i] + s[i+1:]
 	}
+	// The mantissa must consist of digits only: BigInt.SetString would also
+	// accept a sign here (".-5").
+	if len(s) > 0 && (s[0] == '-' || s[0] == '+') {
+		return 0, fmt.Errorf("parse mantissa: %s", s)
+	}
 	if _, ok := d.Coeff.SetString(s, 10); !ok {
 		return 0, fmt.Errorf("parse mantissa: %s", s)
 	}
